@@ -122,7 +122,7 @@ class Reject(Exception):
 EM_OPS = (
     ["append:0", "append:1", "append:2", "append:4", "extend:0,1", "extend:4,0", "appendF:2", "appendF:3", "appendF:0",
      "copy", "slice:0:1", "slice:1:", "slice:::-1", "add:EE", "add:ES", "remove_small:0.9", "remove_overlapping:0", "remove_overlapping:0.5",
-     "link+write", "link", "writeD:0", "writeD:1", "merge01", "mut:E0", "mut:X0", "mut:S0", "clear", "copy_min:0.5", "extendS", "extendF:0,2", "extendF:1,0", "extendSF"]
+     "link+write", "link", "writeD:0", "writeD:1", "merge01", "mut:E0", "mut:X0", "mut:S0", "clear", "copy_min:0.5", "extendS", "extendF:0,2", "extendF:1,0", "extendSF", "appendF_S:0", "appendF_S:3", "set0:1", "reverse"]
 )
 
 
@@ -185,6 +185,29 @@ class EmWorld:
                 self.mE.append(self.mX[i])
                 if self.mdtype is None:
                     self.mdtype = vlayout(self.mX[i])
+        elif name == "appendF_S":
+            # a consistency-checked addition to the derived collection S (copy / slice / sum), whose layout is that of its first member
+            if self.S is None:
+                raise Reject
+            i = int(arg)
+            sdtype = vlayout(self.mS[0]) if self.mS else None
+            if sdtype is not None and sdtype != vlayout(self.mX[i]):
+                self.expect_raise(lambda: self.S.append(X[i], force_consistency=True), ValueError)
+                return
+            self.S.append(X[i], force_consistency=True)
+            self.mS.append(self.mX[i])
+        elif name == "set0":
+            # plain list item assignment (an Emulsion is a list): replaces a member without changing the length
+            if not self.mE:
+                raise Reject
+            i = int(arg)
+            E[0] = X[i].copy()
+            self.mE[0] = self.mX[i]
+        elif name == "reverse":
+            if len(self.mE) < 2:
+                raise Reject
+            E.reverse()
+            self.mE.reverse()
         elif name in ("extendF", "extendSF"):
             # several droplets at once with consistency requested: a list of caller objects / the collection S itself
             if name == "extendSF":
@@ -409,7 +432,7 @@ def model_remove_overlapping(m, md):
 # EmulsionTimeCourse explorer
 # ----------------------------------------------------------------------
 TC_OPS = ["app:0", "app:1", "app:2", "app:1@0.5", "app:2@2.0", "app:0@-1.0", "app:1@0.0", "slice:0:2", "slice:1:", "slice:::-1", "ctor", "clear",
-          "mut:T00", "mut:C1", "mut:S00", "appS:1", "clearS"]
+          "mut:T00", "mut:C1", "mut:S00", "appS:1", "clearS", "ctorL", "tracks:overlap", "tracks:distance"]
 
 
 class TcWorld:
@@ -420,6 +443,8 @@ class TcWorld:
         self.C = [Emulsion(), Emulsion([self.X[0]]), Emulsion([self.X[0], self.X[1]])]  # caller-owned emulsions
         self.T = EmulsionTimeCourse()
         self.S = None
+        self.LT = [0.5, 1.5]  # caller-owned list of time stamps and list of emulsions handed to a constructor ("ctorL")
+        self.LE = [self.C[1], self.C[2]]
         self.mC = [[val(d) for d in e] for e in self.C]
         self.mT = []  # list of (time, [values])
         self.mS = None
@@ -453,6 +478,18 @@ class TcWorld:
         elif name == "ctor":
             self.S = EmulsionTimeCourse(self.T)
             self.mS = [(t, list(v)) for t, v in self.mT]
+        elif name == "tracks":
+            # conversion to tracks: the track list owns its droplets (content = the frames' droplets at the time of the conversion)
+            from droplets import DropletTrackList
+
+            times = [t for t, _ in self.mT]
+            if not times or any(b <= a for a, b in zip(times, times[1:])):
+                raise Reject  # tracking is defined for strictly increasing times
+            self.L = DropletTrackList.from_emulsion_time_course(self.T, method=arg)
+            self.mL = sorted((float(t), v) for t, vs in self.mT for v in vs)
+        elif name == "ctorL":
+            self.S = EmulsionTimeCourse(self.LE, times=self.LT)
+            self.mS = [(0.5, list(self.mC[1])), (1.5, list(self.mC[2]))]
         elif name == "clear":
             self.T.clear()
             self.mT = []
@@ -482,17 +519,21 @@ class TcWorld:
         def tc(T):
             return None if T is None else [(float(t), [val(d) for d in e]) for t, e in zip(T.times, T.emulsions)]
 
-        return {"T": tc(self.T), "S": tc(self.S), "C": [[val(d) for d in e] for e in self.C]}
+        L = getattr(self, "L", None)
+        return {"T": tc(self.T), "S": tc(self.S), "C": [[val(d) for d in e] for e in self.C], "caller_lists": [list(self.LT), len(self.LE)],
+                "L": None if L is None else sorted((float(t), val(d)) for trk in L for t, d in zip(trk.times, trk.droplets))}
 
     def model(self):
         f = lambda M: None if M is None else [(float(t), list(v)) for t, v in M]
-        return {"T": f(self.mT), "S": f(self.mS), "C": [list(v) for v in self.mC]}
+        return {"T": f(self.mT), "S": f(self.mS), "C": [list(v) for v in self.mC], "caller_lists": [[0.5, 1.5], 2], "L": getattr(self, "mL", None)}
 
     def live(self):
         out = [("T", (i, j), d) for i, e in enumerate(self.T.emulsions) for j, d in enumerate(e)]
         if self.S is not None:
             out += [("S", (i, j), d) for i, e in enumerate(self.S.emulsions) for j, d in enumerate(e)]
         out += [("C", (i, j), d) for i, e in enumerate(self.C) for j, d in enumerate(e)]
+        if getattr(self, "L", None) is not None:
+            out += [("L", (i, j), d) for i, trk in enumerate(self.L) for j, d in enumerate(trk.droplets)]
         return out
 
     def aligned(self, ctx, tags):
